@@ -83,6 +83,25 @@ def case_strategy():
                     for cmds in c["platforms"].values():
                         if cmds and draw(st.booleans()):
                             cmds[0]["file"] = h
+        plist = sorted(c["platforms"])
+        # a header shared by a C and a Fortran translation unit of different platforms
+        if draw(st.booleans()):
+            c.setdefault("extra", {})["mixed/shared.h"] = "int s1;\n/* a C comment line */\nint s2; /* trailing */\n! not a C comment\nint s3;\n"
+            c["extra"]["mixed/kernel.F90"] = "subroutine k()\n#include \"shared.h\"\n  integer :: i\nend subroutine k\n"
+            c["tree"]["mixed/main.c"] = {"items": [["include", "quote", "shared.h"], ["code", 2]], "style": [0]}
+            c["platforms"][plist[0]].append({"file": "mixed/main.c", "defines": [], "dirs": [], "forced": []})
+            c["platforms"][plist[-1]].append({"file": "mixed/kernel.F90", "defines": [], "dirs": [], "forced": []})
+        # a user-defined compiler whose flag selects two passes that each add their own include directory
+        if draw(st.booleans()):
+            c.setdefault("extra", {})[".cbi/config"] = (
+                '[compiler.offcc]\n[[compiler.offcc.parser]]\nflags = ["-foffload-targets"]\naction = "store_split"\nsep = ","\nformat = "off-$value"\ndest = "passes"\n'
+                '[[compiler.offcc.passes]]\nname = "off-amd"\ninclude_paths = ["amd_inc"]\n[[compiler.offcc.passes]]\nname = "off-nv"\ninclude_paths = ["nv_inc"]\n'
+                '[[compiler.offcc.passes]]\nname = "off-x"\ninclude_paths = ["x_inc"]\n'
+            )
+            for tag in ("amd", "nv", "x"):
+                c["tree"][f"{tag}_inc/t.h"] = {"items": [["define", f"T_{tag.upper()}", "1"], ["code", 1]], "style": [0]}
+            c["tree"]["off.c"] = {"items": [["include", "angle", "t.h"]] + [["chain", [["ifdef", f"T_{t}", [["code", 1]]]], [["code", 1]]] for t in ("AMD", "NV", "X")], "style": [0]}
+            c["platforms"][draw(st.sampled_from(plist))].append({"file": "off.c", "defines": [], "dirs": [], "forced": [], "compiler": "offcc", "extra_flags": ["-foffload-targets=" + ",".join(draw(st.permutations(["amd", "nv", "x"]))[: draw(st.integers(2, 3))])]})
         c["schedules"] = draw(st.lists(st.tuples(st.sampled_from([0, 1, 2, 3, "random"]), st.integers(0, 10**6), st.integers(0, 10**6)), min_size=3, max_size=3))
         return c
 
